@@ -3,6 +3,7 @@
 From Coq Require Import ZArith List Bool.
 From V Require Import Csv.CsvModel Data.DataModel Scan.ScanModel Scan.ScanSpec Run.RunLoop Run.RunProofs Run.RunCounters
   Run.RunFold Match.Adjudicate Match.Core Match.CoreProofs Match.AggProofs Match.CoreRun Match.CountIfRun Match.PushDistinct.
+From V Require Match.Assign.
 Import ListNotations.
 Open Scope Z_scope.
 
@@ -117,6 +118,19 @@ Theorem C03_count_if_step : forall q blanks AND s l v nm c,
   snd r = AND.
 Proof. exact count_if_step. Qed.
 Print Assumptions C03_count_if_step.
+(** a qualified assignment '@v.<latch|onchange|increase|decrease|notnone|nocontrib> = e' inside any csvpath: written and voted exactly as the
+    documented table says (the decision function of C14, Match/Assign.v), whenever the old and the new value can be compared *)
+Theorem C03_assign_q_step : forall q blanks AND s l qs v e,
+  let cur := aval_of (match lookup v (vars (x mx s)) with Some c0 => c0 | None => VNone end) in
+  let y := aval_of (nvalue blanks s l e) in
+  let r := do_agg q blanks AND s l (AssignQ qs v e) in
+  Assign.comparable cur y = true ->
+  snd r = Assign.vote qs true cur y /\
+  (Assign.write qs true cur y = true -> lookup v (vars (x mx (fst r))) = Some (nvalue blanks s l e)) /\
+  (Assign.write qs true cur y = false -> fst r = s) /\
+  (forall w, v <> w -> lookup w (vars (x mx (fst r))) = lookup w (vars (x mx s))).
+Proof. exact assign_q_step. Qed.
+Print Assumptions C03_assign_q_step.
 Theorem C03_sum_step : forall q blanks AND s l nm e,
   let r := do_agg q blanks AND s l (Sum nm e) in
   num_of (lookup nm (vars (x mx (fst r)))) = num_of (lookup nm (vars (x mx s))) + fst (neval blanks s l e) /\
